@@ -284,9 +284,20 @@ func genC10(c *Ctx) {
 		p1, p2 := o.(*rlwe.Decryptor).DecryptNew(A), x.(*rlwe.Decryptor).DecryptNew(A)
 		return diff(deepHash(&p1.Value), deepHash(&p2.Value))
 	}
-	add(c10Case{name: "rlwe.Decryptor.ShallowCopy", same: decSame, use: func(x interface{}) { x.(*rlwe.Decryptor).DecryptNew(B) },
+	// the scratch polynomial of a Decryptor is only used for coefficient-domain ciphertexts
+	decUse := func(x interface{}) {
+		d := x.(*rlwe.Decryptor)
+		d.DecryptNew(B)
+		cf := B.CopyNew()
+		r := rp.RingQ().AtLevel(cf.Level())
+		r.INTT(cf.Value[0], cf.Value[0])
+		r.INTT(cf.Value[1], cf.Value[1])
+		cf.IsNTT = false
+		d.DecryptNew(cf)
+	}
+	add(c10Case{name: "rlwe.Decryptor.ShallowCopy", same: decSame, use: decUse,
 		mk: func() (interface{}, interface{}) { o := rlwe.NewDecryptor(bp, sk); return o, o.ShallowCopy() }})
-	add(c10Case{name: "rlwe.Decryptor.WithKey", use: func(x interface{}) { x.(*rlwe.Decryptor).DecryptNew(B) },
+	add(c10Case{name: "rlwe.Decryptor.WithKey", use: decUse,
 		mk: func() (interface{}, interface{}) { o := rlwe.NewDecryptor(bp, sk); return o, o.WithKey(sk2) }})
 	// ---- keys: deep copies ----
 	add(c10Case{name: "rlwe.SecretKey.CopyNew", deep: true, mk: func() (interface{}, interface{}) { o := kgen.GenSecretKeyNew(); return o, o.CopyNew() }})
@@ -550,6 +561,7 @@ func genC10(c *Ctx) {
 		cs := cs
 		res := Try(func() string {
 			o, x := cs.mk()
+			c10Register(cs.name)
 			c.Emit("table "+cs.name, strings.Join(c10Classify(o, x), ","))
 			c.Count("type:" + cs.name)
 			if cs.same != nil {
@@ -623,6 +635,7 @@ func genC10(c *Ctx) {
 	c10RLWE(c)
 	c10Multiparty(c)
 	c10Circuits(c)
+	c10Complete(c)
 
 	// ---- named candidates ----
 	// (1) Encryptor.ShallowCopy after WithPRNG: is the installed source of c1 kept?
